@@ -50,6 +50,9 @@ func checkC04(c *FaultCase) (nontrivial bool, err error) {
 		st := ss.run(at)
 		cleanup()
 		st.drainLib()
+		if err := st.panicErr(); err != nil {
+			return nontrivial, fmt.Errorf("attempt %d (%s at %d): %v", i+1, spec.Fault.Kind, spec.Fault.At, err)
+		}
 		what := fmt.Sprintf("attempt %d (%s at %d)", i+1, spec.Fault.Kind, spec.Fault.At)
 		if req, ok := st.dump(); ok {
 			allowed := allowedResume(l, exp, len(accepted), start, su)
